@@ -445,6 +445,67 @@ def add_hooks(draw, c, feats):
         c['savorize'] = ops
 
 
+def add_sweeten(draw, classes, feats):
+    """Declarative _yatiml_sweeten hooks; with 'inverse' in feats each op gets
+    the inverse _yatiml_savorize op (applied in reverse order)."""
+    inverse = 'inverse' in feats
+    by = {c['name']: c for c in classes}
+
+    def below(n):
+        out = [n]
+        for c in classes:
+            if c['name'] not in out and any(b in out for b in c.get('bases', [])):
+                out.append(c['name'])
+        return out
+    for c in classes:
+        if c.get('kind', 'obj') != 'obj' or c.get('index') or c.get('recognize') \
+                or c.get('savorize') or draw(st.integers(0, 2)) != 0:
+            continue
+        opt = [p for p in c['params'] if 'default' in p]
+        names = [p['name'] for p in c['params']]
+        ops, inv = [], []
+        kinds = draw(st.lists(st.sampled_from(
+            ['remove_defaults', 'unders_to_dashes', 'rename', 'add', 'attrs', 'hidden',
+             'remove']), min_size=1, max_size=3, unique=True))
+        for k in kinds:
+            if k == 'remove_defaults' and opt:
+                ops.append(['remove_defaults'])
+                if draw(st.integers(0, 3)) == 0 and below(c['name']) == [c['name']]:
+                    p = draw(st.sampled_from(opt))
+                    if p['default'][0] in ('int', 'str', 'bool', 'none'):
+                        c['defaults_override'] = [[p['name'], draw(st.sampled_from(
+                            [p['default'], ['int', 7], ['str', 'ov']]))]]
+            elif k == 'unders_to_dashes':
+                if any(by[d].get('extra') for d in below(c['name'])):
+                    continue
+                ops.append(['unders_to_dashes'])
+                inv.append(['dashes_to_unders'])
+            elif k == 'rename' and opt:
+                p = draw(st.sampled_from(opt))
+                alias = 'al' + p['name'].replace('_', '').capitalize() + c['name']
+                ops.append(['rename', p['name'], alias])
+                inv.append(['rename', alias, p['name']])
+            elif k == 'add':
+                nm = 'marker' + c['name']
+                ops.append(['add', nm, draw(st.sampled_from(
+                    [['str', 'v1'], ['int', 2], ['bool', True], ['none'], ['float', '1.5']]))])
+                inv.append(['remove', nm])
+            elif k == 'attrs' and names and not c.get('extra') and below(c['name']) == [c['name']]:
+                if inverse:
+                    c['attrs_hook'] = list(draw(st.permutations(names)))
+                else:
+                    sub = draw(st.lists(st.sampled_from(names), unique=True, max_size=len(names)))
+                    c['attrs_hook'] = list(sub)
+            elif k == 'hidden':
+                c['hidden'] = True
+            elif k == 'remove' and opt and not inverse:
+                ops.append(['remove', draw(st.sampled_from(opt))['name']])
+        if ops:
+            c['sweeten'] = ops
+            if inverse and inv:
+                c['savorize'] = inv[::-1]
+
+
 @st.composite
 def models(draw, feats=(), max_classes=5, doc_type=None):
     """Model spec strategy.
@@ -572,6 +633,8 @@ def models(draw, feats=(), max_classes=5, doc_type=None):
                 sc['params'].append({'name': 'note', 'type': 'any', 'default': ['none']})
             classes.append(sc)
             objs.append('S')
+    if 'sweeten' in feats:
+        add_sweeten(draw, classes, feats)
     if 'discriminator' in feats:
         for c in classes:
             if c.get('kind', 'obj') == 'obj' and not c.get('recognize') and \
